@@ -92,7 +92,9 @@ func main() {
 		}
 		run.SetConfig(cfg.String())
 		run.Infof("config %s: %d packages, %d source functions", cfg, len(p.Pkgs), len(p.AllFuncs))
-		pr.Run(&rules.Ctx{P: p, R: run, Tier: *tier})
+		ctx := &rules.Ctx{P: p, R: run, Tier: *tier}
+		rules.InstallAliases(ctx)
+		pr.Run(ctx)
 	}
 	kf, err := core.LoadKnown(filepath.Join(*verif, "known_findings.json"))
 	if err != nil {
